@@ -168,6 +168,15 @@ def ofLists [Inhabited α] (l : List (List α)) (cols : Nat) : Arr2 α :=
 
 end Arr2
 
+/-- `np.vstack(list of 2-d arrays)`: the blocks one under the other, in list order (NumPy raises when the column
+counts differ; not modelled: the result takes the first block's column count) -/
+def vstackGet {α} [Zero α] : List (Arr2 α) → Nat → Nat → α
+  | [], _, _ => 0
+  | a :: t, r, c => if r < a.rows then a.get r c else vstackGet t (r - a.rows) c
+
+def vstack {α} [Zero α] (l : List (Arr2 α)) : Arr2 α :=
+  ⟨(l.map (·.rows)).sum, (l.head?.map (·.cols)).getD 0, vstackGet l⟩
+
 /-- the switching-cost argument of the labelling kernel: one number or one per point -/
 inductive ScalarOrVec (α : Type) where
   | scalar (v : α)
